@@ -173,8 +173,10 @@ def sample_lines(trace, k=2):
     return s
 
 def write_evidence(pid, ev):
-    os.makedirs(os.path.join(VERIF, 'evidence'), exist_ok=True)
-    p = os.path.join(VERIF, 'evidence', pid + '.json')
+    # runs against a scratch copy of the repository (seeded-change testing) must not overwrite the evidence of /repo itself
+    d = os.path.join(VERIF, 'evidence') if REPO == '/repo' else os.path.join(VERIF, '.cache', 'evidence-scratch')
+    os.makedirs(d, exist_ok=True)
+    p = os.path.join(d, pid + '.json')
     json.dump(ev, open(p, 'w'), indent=1, sort_keys=True)
     return p
 
